@@ -190,6 +190,12 @@ func genOp(r *rand.Rand, m *model.Client, w opWeights, salt int) adapt.Op {
 			return adapt.Op{Kind: adapt.OpDescribe, Table: name}
 		}
 		n := 1 + r.Intn(6)
+		// one batch in six is LARGE: 20-31 requests spread over the existing tables, i.e. around the limit of
+		// 25 requests per call (which counts all tables together)
+		large := r.Intn(6) == 0
+		if large {
+			n = 20 + r.Intn(12)
+		}
 		seen := map[string]bool{}
 		if !w.noBatchGet && r.Intn(3) == 0 {
 			gets := []adapt.BatchEntry{}
@@ -209,6 +215,9 @@ func genOp(r *rand.Rand, m *model.Client, w opWeights, salt int) adapt.Op {
 			tn := mon.Pick(r, existing)
 			sp := m.Tables[tn].Spec
 			it := genItem(r, sp, salt*10+i)
+			if large {
+				it["h"] = val.Str(fmt.Sprint("big", i))
+			}
 			key := m.Tables[tn].KeyOf(it)
 			if seen[tn+key.Canon()] {
 				continue
